@@ -36,7 +36,12 @@ RULE = ("bin tables of 1..6 chromosomes (incl. X/Y) x 1..400 bins, optional cent
         "drop_outliers(table, width {50,20,10}, factor {10,5,3,2.5,1,0.5}) on 1..4 chromosomes of width-1 / width / width+1 / "
         "width+2 / longer bins (noise, flat, all-zero, stepped log2; planted outliers on either side), trend and rolling "
         "quantile taken from the real savgol / rolling_quantile, the mask compared with the Lean model dropMask AND with the "
-        "rule generated from the source text (knife-edge elements excepted). non-trivial = a bin was filtered out or a chromosome "
+        "rule generated from the source text (knife-edge elements excepted). BAF column of the variants= branch (op seg_baf, "
+        "one in six): do_segmentation(bins, none / haar, variants=) on 1..3 chromosomes x 6..125 bins with level steps (several "
+        "segments per arm), dropped bins in front / at the end of a chromosome (stretched endpoints), a centromere-sized hole, "
+        "<= 50 SNVs per chromosome (frequencies k/64, some in dropped bins and in holes), table held with default / gapped / "
+        "permuted / offset labels, keyword / positional / implicit call: the real baf column compared with the Lean model "
+        "C03Baf.doSegBaf and judged by the oracle baf_of_own_range. non-trivial = a bin was filtered out or a chromosome "
         "was split into arms or more than one segment was reported; distinct by hash")
 EXHAUSTIVE = {"quick": False, "thorough": False}
 ASSUMPTIONS = ["input bins sorted, non-overlapping, positive length (a .cnr table)",
